@@ -290,7 +290,8 @@ class ListOf(Ty):
 
 
 class MListOf(Ty):
-    """A *mutable* list of symbolic length whose elements are ints / bools / strings or tuples of these
+    """A *mutable* list of symbolic length whose elements are ints / bools / strings, tuples of these, optional
+    values, indexed opaque objects (`RefTo`), opaque objects with an `mlist_codec`, or records (`Inst`) of these
     (pyvc.mlist.MList): results accumulated in loops, out-parameters.  In `M.loop(... modifies=...)` the
     list is havocked in place."""
 
@@ -314,9 +315,28 @@ class MListOf(Ty):
         return ListOf(self.elem).concrete(cx, name)
 
 
+class RefTo(Ty):
+    """Element type for MListOf: an opaque object that is a function of `arity` integer index terms -- an element
+    of the symbolic sequence of interface objects whose uid is `uid[:-2]` (uid ends in '[]'), or the structured
+    result of a pure interface method ('<object uid>.<method>()')."""
+
+    def __init__(self, iface, uid, arity=1):
+        self.iface, self.uid, self.arity = iface, uid, arity
+
+
 def _mshape(ty):
     if isinstance(ty, FixedList):
         return ('tuple', tuple(_mshape(t) for t in ty.elems))
+    if isinstance(ty, Opt):
+        return ('opt', _mshape(ty.inner))
+    if isinstance(ty, RefTo):
+        return ('ref', ty.iface, ty.uid, ty.arity)
+    if isinstance(ty, Iface):
+        iface = ty.iface() if isinstance(ty.iface, types.FunctionType) else ty.iface
+        if getattr(iface, 'mlist_codec', None) is not None:
+            return ('codec', iface)
+    if isinstance(ty, Inst):
+        return ('inst', ty.cls, tuple((k, _mshape(t)) for k, t in ty.fields.items()))
     if isinstance(ty, _Int):
         return ('int',)
     if isinstance(ty, _Bool):
@@ -548,6 +568,7 @@ class Interface:
     attrs = {}
     attr_raises = {}
     methods = {}
+    computed = {}          # {name: fn(interp, obj) -> value}: attributes that are functions of the object
     invariant = None
     truthy = True
 
@@ -632,6 +653,9 @@ class Registry:
         self.contracts = {}        # qualified name -> Contract
         self.by_func = {}          # function object -> Contract
         self.models = {}           # callable -> model
+        self.scoped_models = {}    # property id -> {callable -> model}: Module.model(...) registrations apply only
+        #                            while a function of that property is verified (no cross-property clashes)
+        self.current_props = ()    # property ids of the function under verification
         self.loops = {}            # (qualified name, ordinal) -> LoopSpec
         self.loops_by_code = {}
         self.under_verification = None
@@ -723,6 +747,10 @@ class Registry:
 
     def model_for(self, f):
         try:
+            for p in getattr(self, 'current_props', ()):
+                m = self.scoped_models.get(p, {}).get(f)
+                if m is not None:
+                    return m
             m = self.models.get(f)
             if m is None:
                 # library models registered with pyvc.models.model(...) (also for the ghost primitives of
@@ -754,6 +782,12 @@ class Registry:
                 v = ty.make(interp, '%s.%s' % (o._pv_uid, name)) if isinstance(ty, Ty) else ty
             o._pv_attrs[name] = v
             return v
+        comp = _iface_lookup(iface, 'computed', name)
+        if comp is not None:
+            # an attribute that is a function of the object: computed on first access, then cached
+            v = comp(interp, o)
+            o._pv_attrs[name] = v
+            return v
         m = _iface_lookup(iface, 'methods', name)
         if m is not None:
             return OpaqueMethod(o, name, m)
@@ -769,7 +803,8 @@ class Registry:
 
     def opaque_has(self, interp, o, name):
         iface = o._pv_iface
-        return _iface_lookup(iface, 'attrs', name) is not None or _iface_lookup(iface, 'methods', name) is not None
+        return _iface_lookup(iface, 'attrs', name) is not None or _iface_lookup(iface, 'methods', name) is not None \
+            or _iface_lookup(iface, 'computed', name) is not None
 
     def opaque_type(self, interp, o):
         return o._pv_cls
@@ -909,14 +944,7 @@ def call_opaque_method(interp, o, name, m, args, kwargs):
         st.assume(ok)
     if m.event is not None:
         st.emit(m.event, o, tuple(args))
-    if m.may_raise:
-        k = st.choose(1 + len(m.may_raise))
-        if k > 0:
-            factory = m.may_raise[k - 1]
-            exc = factory(interp, o) if isinstance(factory, types.FunctionType) else factory()
-            if m.event is not None:
-                st.emit(m.event + ':raised', o, exc)
-            raise PyRaise(exc)
+    key = None
     if m.pure:
         flat = []
         for a in args:
@@ -927,8 +955,23 @@ def call_opaque_method(interp, o, name, m, args, kwargs):
         args = flat
         key = ('__call__', name, tuple(z3.simplify(to_z3(a)).sexpr() if isinstance(a, (Sym, int, str, bool))
                                         and not isinstance(a, (SOpt, SChoice, SList)) else id(a) for a in args))
+        # a pure method is a function of (object, arguments): the outcome of an earlier call -- value or
+        # exception -- is the outcome of this one
         if key in o._pv_attrs:
             return o._pv_attrs[key]
+        if ('__raised__', key) in o._pv_attrs:
+            raise PyRaise(o._pv_attrs[('__raised__', key)])
+    if m.may_raise:
+        k = st.choose(1 + len(m.may_raise))
+        if k > 0:
+            factory = m.may_raise[k - 1]
+            exc = factory(interp, o) if isinstance(factory, types.FunctionType) else factory()
+            if m.event is not None:
+                st.emit(m.event + ':raised', o, exc)
+            if key is not None:
+                o._pv_attrs[('__raised__', key)] = exc
+            raise PyRaise(exc)
+    if m.pure:
         if all(isinstance(a, (SInt, SBool, SStr, int, str, bool)) for a in args) and \
                 isinstance(m.returns, (_Int, _Bool, _Str)):
             sorts = [x.sort() for x in o._pv_index] + [to_z3(a).sort() for a in args]
